@@ -36,6 +36,16 @@ pub struct OffsetDateTime {
 }
 impl OffsetDateTime {
     pub const UNIX_EPOCH: OffsetDateTime = OffsetDateTime { secs: 0, nanos: 0 };
+    // the accessors of time::OffsetDateTime that code working with instants commonly uses
+    pub fn unix_timestamp(&self) -> i64 {
+        self.secs
+    }
+    pub fn nanosecond(&self) -> u32 {
+        self.nanos
+    }
+    pub fn from_unix_timestamp(secs: i64) -> Result<OffsetDateTime, ()> {
+        Ok(OffsetDateTime { secs, nanos: 0 })
+    }
 }
 impl core::ops::Add<Duration> for OffsetDateTime {
     type Output = OffsetDateTime;
